@@ -35,6 +35,9 @@ pub enum Damage {
     HeaderVersion(u32),
     /// region cut inside the header (1..=31 bytes left)
     Short(u8),
+    /// header intact, 1..size-1 stray bytes appended to the data region of a raw vector (a torn last element): the
+    /// stored version and format are still readable
+    TornTail(u8),
 }
 
 #[derive(Clone, Debug, Serialize, Deserialize)]
@@ -194,11 +197,12 @@ where
             Damage::FormatByte(b) => region.write_at(&[b], 20).map_err(e)?,
             Damage::HeaderVersion(v) => region.write_at(&v.to_le_bytes(), 0).map_err(e)?,
             Damage::Short(n) => region.truncate(n as usize).map_err(e)?,
+            Damage::TornTail(k) => region.write(&vec![0xAB; 1 + k as usize % (B::T::SIZE - 1)]).map_err(e)?,
             Damage::None => {}
         }
         drop(region);
         db.flush().map_err(|x| format!("db.flush(): {x}"))?;
-        obs.label("stored:damaged-header");
+        obs.label(if matches!(case.damage, Damage::TornTail(_)) { "stored:torn-tail" } else { "stored:damaged-header" });
     }
     let before = snapshot(&db);
     let same_format = disk(case.fmt_a) == disk(case.fmt_b);
@@ -227,6 +231,26 @@ where
     }
     if !same_version && case.damage == Damage::None {
         obs.label("mismatch:version");
+    }
+    if matches!(case.damage, Damage::TornTail(_)) && same_format && same_version {
+        // version and format match and the header says so: neither entry point may discard anything. Refusing
+        // (the region is not a whole number of values) leaves the database alone; accepting returns the contents.
+        obs.label(if case.entry_b.forced() { "torn-tail:match+forced" } else { "torn-tail:match+plain" });
+        return match got {
+            Err(e) => match snap_diff(&before, &snapshot(&db)) {
+                Some(d) => Err(format!("{tag}: version and format match; the import failed ({e}) and still modified the database: {d}")),
+                None => {
+                    if !model.items.is_empty() && case.entry_b.forced() {
+                        obs.set_nontrivial();
+                    }
+                    Ok(())
+                }
+            },
+            Ok(v) => {
+                let sut = mk_sut::<B>(dir, db, v, cfg_b, case.version_b, model, seq);
+                sut.observe().map_err(|e| format!("{tag}: version and format match (stray bytes after the last value) but the stored contents were not returned: {e}"))
+            }
+        };
     }
     if matching {
         // returns the stored contents, through either entry point
@@ -349,6 +373,7 @@ impl Prop for P {
                     1 => prop_oneof![Just(2u8), Just(63), Just(67), Just(255)].prop_map(Damage::FormatByte),
                     1 => prop_oneof![Just(0u32), Just(u32::MAX), any::<u32>()].prop_map(Damage::HeaderVersion),
                     1 => (1u8..32).prop_map(Damage::Short),
+                    if disk(fmt_a) == Fmt::Bytes || disk(fmt_a) == Fmt::ZeroCopy { 2 } else { 0 } => any::<u8>().prop_map(Damage::TornTail),
                 ];
                 (
                     (entry(), version(), prop::collection::vec(vop_strategy(mix_a), 0..=n), any::<u16>()),
@@ -382,7 +407,7 @@ impl Prop for P {
     }
 
     fn rule() -> String {
-        "a vector of u32 or u64 is created through one of the four entry points (import, import_with, forced_import, forced_import_with) in one of six formats (bytes, zerocopy, pco, lz4, zstd, eager wrapper) under a generated version, filled by a C03-style history (pushes up to several pages, truncations, writes, flushes, re-imports; raw formats: updates, deletions, hole filling, so that a holes region exists; compressed: a page-index region), flushed and dropped; optionally the stored header is damaged through rawdb (unused format byte, other header version, region cut inside the header). It is then requested through a generated entry point under a generated (format, version), equal to the stored pair in about a third of the cases. Oracle: match => Ok and exactly the stored contents (len, every element, deleted slots, stamp), and the vector keeps working (generated continuation + re-import against the model); mismatch + plain => Err(DifferentVersion | DifferentFormat), every region of the database byte-identical to before, and a plain import under the creating pair still returns everything; mismatch + forced => Ok, an empty vector (no elements, no deleted slots), the continuation matches a fresh model, and the old pair no longer imports; damaged header => plain import refused with the database untouched, forced import either empty or refused with the database untouched. Non-trivial: a non-empty stored vector met by a mismatch, or by a forced import under a matching pair.".into()
+        "a vector of u32 or u64 is created through one of the four entry points (import, import_with, forced_import, forced_import_with) in one of six formats (bytes, zerocopy, pco, lz4, zstd, eager wrapper) under a generated version, filled by a C03-style history (pushes up to several pages, truncations, writes, flushes, re-imports; raw formats: updates, deletions, hole filling, so that a holes region exists; compressed: a page-index region), flushed and dropped; optionally the stored header is damaged through rawdb (unused format byte, other header version, region cut inside the header) or, for raw formats, 1..size-1 stray bytes are appended after the last value. It is then requested through a generated entry point under a generated (format, version), equal to the stored pair in about a third of the cases. Oracle: match => Ok and exactly the stored contents (len, every element, deleted slots, stamp), and the vector keeps working (generated continuation + re-import against the model); mismatch + plain => Err(DifferentVersion | DifferentFormat), every region of the database byte-identical to before, and a plain import under the creating pair still returns everything; mismatch + forced => Ok, an empty vector (no elements, no deleted slots), the continuation matches a fresh model, and the old pair no longer imports; stray bytes after the last value of a raw vector (header intact) under a matching pair => refused with the database untouched, or the stored contents; under another pair as for a mismatch; damaged header => plain import refused with the database untouched, forced import either empty or refused with the database untouched. Non-trivial: a non-empty stored vector met by a mismatch, or by a forced import under a matching pair.".into()
     }
 
     fn mandatory_labels() -> &'static [&'static str] {
@@ -396,6 +421,8 @@ impl Prop for P {
             "stored:holes-region",
             "stored:several-pages",
             "stored:damaged-header",
+            "torn-tail:match+forced",
+            "torn-tail:match+plain",
             "forced-reset-of-vector-with-holes",
         ]
     }
